@@ -113,13 +113,16 @@ type BundlePropertyExperimenter struct {
 	data             []byte
 }
 
+// Len is the size of the property on the wire: header and payload, padded with zeros to a multiple of 8 bytes.
 func (p *BundlePropertyExperimenter) Len() uint16 {
 	length := uint16(unsafe.Sizeof(p.Type) + unsafe.Sizeof(p.Length) + unsafe.Sizeof(p.ExperimenterID) + unsafe.Sizeof(p.ExperimenterType))
-	return length + uint16(len(p.data))
+	return (length + uint16(len(p.data)) + 7) / 8 * 8
 }
 
 func (p *BundlePropertyExperimenter) MarshalBinary() (data []byte, err error) {
-	data = make([]byte, 0)
+	// the length field excludes the padding
+	p.Length = uint16(12 + len(p.data))
+	data = make([]byte, int(p.Len()))
 	n := 0
 	binary.BigEndian.PutUint16(data[n:], p.Type)
 	n += 2
@@ -129,14 +132,12 @@ func (p *BundlePropertyExperimenter) MarshalBinary() (data []byte, err error) {
 	n += 4
 	binary.BigEndian.PutUint32(data[n:], p.ExperimenterType)
 	n += 4
-	if p.data != nil {
-		data = append(data, p.data...)
-	}
+	copy(data[n:], p.data)
 	return
 }
 
 func (p *BundlePropertyExperimenter) UnmarshalBinary(data []byte) error {
-	if len(data) < int(p.Len()) {
+	if len(data) < 12 {
 		return errors.New("the []byte is too short to unmarshal a full BundlePropertyExperimenter message")
 	}
 	n := 0
@@ -148,9 +149,11 @@ func (p *BundlePropertyExperimenter) UnmarshalBinary(data []byte) error {
 	n += 4
 	p.ExperimenterType = binary.BigEndian.Uint32(data[n:])
 	n += 4
-	if len(data) < int(p.Length) {
-		p.data = data[n:]
+	if int(p.Length) < n || len(data) < int(p.Length) {
+		return errors.New("the length of the BundlePropertyExperimenter message is outside the []byte")
 	}
+	p.data = make([]byte, int(p.Length)-n)
+	copy(p.data, data[n:p.Length])
 	return nil
 }
 
